@@ -8,14 +8,14 @@
    system with the modes the property allows. *)
 From Coq Require Import Permutation.
 From Oras Require Import Base.Prelude Generated.GC12 Model.TarRoundTrip Model.FileAnnotations
-  Proofs.TarRoundTrip Proofs.TarWalkOrder Proofs.TarListingOrder Proofs.TarRootMode.
+  Proofs.TarRoundTrip Proofs.TarWalkOrder Proofs.TarListingOrder Proofs.TarModeSweep Proofs.TarRootMode Proofs.TarUnprivileged Proofs.TarSourceFacts Proofs.TarSetgid.
 
 (* Round trip at full strength: every path of the restored directory -- the directory itself
    included -- is the path of the source tree: same kind, bytes, link target, and mode (minus
    the umask unless PreservePermissions); nothing else exists, and extraction does not fail.
    For every tree with distinct names per directory, modes within 07777 (files AND directories),
-   and relative symlinks that stay inside and do not pass through other symlinks or regular
-   files ([benign_tree], see C12_link_through_link_refuted); any child order; any umask with
+   and relative symlinks that stay inside and do not pass through other symlinks
+   ([benign_tree], see C12_link_through_link_refuted); any child order; any umask with
    PreservePermissions, any umask within 0777 without (the kernel keeps no other bits).
    [extract] = extractTarDirectory with restoreDirModes: directories are created with
    mode | 0700 and get their recorded mode after the last entry. *)
@@ -47,6 +47,80 @@ Theorem C12_roundtrip_preserve :
       forall p, fs_lookup f' p = expected umask true T p.
 Proof. exact roundtrip_preserve_full. Qed.
 Print Assumptions C12_roundtrip_preserve.
+
+(* An unprivileged user unpacks exactly what root unpacks -- for EVERY archive (any entry list,
+   not only those written by Add): [extract_p false] adds the kernel's check that the owner has
+   write+search permission on the directory in which an entry is created, replaced or removed;
+   with restoreDirModes every directory has mode | 0700 while entries are created, so under a
+   umask without owner write/search bits the check never fails. *)
+Theorem C12_unprivileged_same_as_root :
+  forall priv pre umask preserve es,
+    N.land umask 192 = 0 ->
+    extract_p priv pre umask preserve es = extract pre umask preserve es.
+Proof. exact unprivileged_same_as_root. Qed.
+Print Assumptions C12_unprivileged_same_as_root.
+
+Theorem C12_roundtrip_unprivileged :
+  forall pre umask preserve repro T,
+    N.land umask 192 = 0 -> (preserve = false -> umask <= 511) ->
+    is_dir T = true -> wf_treeb T = true -> modes_okb T = true -> benign_tree pre T = true ->
+    exists f', extract_p false pre umask preserve (tar_entries pre repro T) = Ok f' /\
+      forall p, fs_lookup f' p = expected umask preserve T p.
+Proof. exact roundtrip_unprivileged. Qed.
+Print Assumptions C12_roundtrip_unprivileged.
+
+(* Finding "link-through-file-rejected", fixed in the repository: a dangling relative link whose
+   target passes through a regular file of the tree (or through a component longer than
+   NAME_MAX: "link-target-name-too-long") was refused when that file had been extracted before
+   it, because resolveRelToBase returned the ENOTDIR / ENAMETOOLONG of its Lstat walk
+   ([check_dirs_prefix]); such a directory cannot exist, so nothing there can be a symbolic
+   link: it is now treated like a missing one and the tree restores in either order. *)
+Theorem C12_link_through_file_prefix_refuted :
+  (let f := [([b "a"], NFile (b "x") 420)] in
+   check_dirs_prefix f [] [b "a"; b "x"; b "y"] = false /\ check_dirs f [] [b "a"; b "x"; b "y"] = true) /\
+  benign_tree [b "d"] (through_file_tree "a") = true /\
+  (exists f', extract [b "d"] 18 false (tar_entries [b "d"] true (through_file_tree "a")) = Ok f' /\
+     fs_lookup f' [b "l"] = Some (NLink (b "a/x/y")) /\ fs_lookup f' [b "a"] = Some (NFile (b "x") 420)) /\
+  exists f', extract [b "d"] 18 false (tar_entries [b "d"] true (through_file_tree "z")) = Ok f' /\
+    fs_lookup f' [b "l"] = Some (NLink (b "z/x/y")) /\ fs_lookup f' [b "z"] = Some (NFile (b "x") 420).
+Proof. exact through_file_prefix_refuted. Qed.
+Print Assumptions C12_link_through_file_prefix_refuted.
+
+(* The state of the directory when the extraction stops ([extract_partial]: the entries before
+   the failing one, directories still with their creation mode) belongs to the same run as the
+   verdict: same error, and on success the same file system. *)
+Theorem C12_extract_partial_spec :
+  forall priv pre umask preserve es,
+    extract_p priv pre umask preserve es =
+    match extract_partial priv pre umask preserve es with
+    | (f, None) => Ok f
+    | (_, Some x) => Err x
+    end.
+Proof. exact extract_partial_spec. Qed.
+Print Assumptions C12_extract_partial_spec.
+
+(* When the extraction stops with an error, what is on disk is exactly the result of the entries
+   before the failing one (the failing entry has no effect of its own, restoreDirModes has not run). *)
+Theorem C12_partial_is_prefix_run :
+  forall priv pre umask preserve es f x f',
+    extract_list_partial priv pre umask preserve f es = (f', Some x) ->
+    exists done rest e, es = done ++ e :: rest /\
+      extract_list_p priv pre umask preserve f done = Ok f' /\
+      extract_entry_p priv pre umask preserve f' e = Err x.
+Proof. exact extract_list_partial_root. Qed.
+Print Assumptions C12_partial_is_prefix_run.
+
+(* The code before restoreDirModes (directories created with their recorded mode): the owner
+   cannot fill a 0555 directory (EACCES), with and without PreservePermissions; root can; the
+   current code can.  Finding "nonroot-permission-denied", fixed in the repository. *)
+Theorem C12_readonly_dir_prefix_refuted :
+  extract_prefix_p false [b "d"] 18 false (tar_entries [b "d"] true readonly_dir_witness) = Err XPerm /\
+  extract_prefix_p false [b "d"] 18 true (tar_entries [b "d"] true readonly_dir_witness) = Err XPerm /\
+  (exists f, extract_prefix_p true [b "d"] 18 false (tar_entries [b "d"] true readonly_dir_witness) = Ok f) /\
+  exists f', extract_p false [b "d"] 18 false (tar_entries [b "d"] true readonly_dir_witness) = Ok f' /\
+    fs_lookup f' [b "ro"] = Some (NDir 365) /\ fs_lookup f' [b "ro"; b "f"] = Some (NFile (b "x") 292).
+Proof. exact readonly_dir_prefix_refuted. Qed.
+Print Assumptions C12_readonly_dir_prefix_refuted.
 
 (* [benign_tree] is needed, and what it excludes is rejected by the code depending on the
    extraction order: d/{b/f, a -> b, c -> a/f} (relative links, all inside) is refused
@@ -156,6 +230,35 @@ Section Codec.
       unpack digest H digest_eqb dec gunz umask preserve d blob = Err XDigest.
   Proof. exact (wrong_blob_rejected digest H digest_eqb dec gunz digest_eqb_spec). Qed.
 
+  (* What Push leaves in the directory.  A successful Push leaves what it returns; with a wrong
+     recorded tar digest Push fails -- and the complete tree of the archive is on disk
+     nevertheless (the digest is compared after the extraction): "verified on unpack" does not
+     protect the working directory; a blob that is not the descriptor's is not extracted at all. *)
+  Theorem C12_residue_of_success :
+    forall umask preserve d blob f,
+      unpack digest H digest_eqb dec gunz umask preserve d blob = Ok f ->
+      unpack_residue digest H digest_eqb dec gunz umask preserve d blob = f.
+  Proof. exact (residue_of_success digest H digest_eqb dec gunz). Qed.
+
+  Theorem C12_wrong_checksum_residue :
+    forall pre umask preserve repro T c,
+      (preserve = false -> umask <= 511) ->
+      is_dir T = true -> wf_treeb T = true -> modes_okb T = true -> benign_tree pre T = true ->
+      c <> H (enc (tar_entries pre repro T)) ->
+      let d0 := dir_descriptor digest H enc gz pre repro T in
+      let d := mkDesc digest (d_digest digest d0) (d_size digest d0) pre true (Some c) in
+      let blob := dir_blob enc gz pre repro T in
+      unpack digest H digest_eqb dec gunz umask preserve d blob = Err XDigest /\
+      forall p, fs_lookup (unpack_residue digest H digest_eqb dec gunz umask preserve d blob) p
+                = expected umask preserve T p.
+  Proof. exact (wrong_checksum_residue digest H digest_eqb enc dec gz gunz digest_eqb_spec dec_enc gunz_gz). Qed.
+
+  Theorem C12_wrong_blob_residue :
+    forall umask preserve d blob,
+      H blob <> d_digest digest d \/ N.of_nat (length blob) <> d_size digest d ->
+      unpack_residue digest H digest_eqb dec gunz umask preserve d blob = fs_init umask.
+  Proof. exact (wrong_blob_residue digest H digest_eqb dec gunz digest_eqb_spec). Qed.
+
   (* a plain file: Add -> Push writes exactly the bytes (mode 0666 minus umask: a blob
      descriptor carries no mode); whatever Push accepts has the descriptor's digest and size *)
   Theorem C12_file_roundtrip :
@@ -163,6 +266,14 @@ Section Codec.
       push_file digest H digest_eqb umask (file_descriptor digest H nm content) content
       = Ok (NFile content (N.ldiff 438 umask)).
   Proof. exact (file_roundtrip digest H digest_eqb digest_eqb_spec). Qed.
+
+  (* ... and that is the known finding "plain-file-mode-not-carried": *)
+  Theorem C12_plain_file_mode_refuted :
+    forall nm content,
+      exists m m', m <= 511 /\
+        push_file digest H digest_eqb 18 (file_descriptor digest H nm content) content = Ok (NFile content m') /\
+        m' <> N.ldiff m 18.
+  Proof. exact (plain_file_mode_refuted digest H digest_eqb digest_eqb_spec). Qed.
 
   Theorem C12_file_push_verified :
     forall umask d blob n,
@@ -184,12 +295,16 @@ Section Codec.
 End Codec.
 Print Assumptions C12_descriptor.
 Print Assumptions C12_unpack_roundtrip.
+Print Assumptions C12_residue_of_success.
+Print Assumptions C12_wrong_checksum_residue.
+Print Assumptions C12_wrong_blob_residue.
 Print Assumptions C12_skipunpack_stores_blob.
 Print Assumptions C12_wrong_checksum_rejected.
 Print Assumptions C12_wrong_blob_rejected.
 Print Assumptions C12_reproducible.
 Print Assumptions C12_file_roundtrip.
 Print Assumptions C12_file_push_verified.
+Print Assumptions C12_plain_file_mode_refuted.
 
 (* ... and regardless of the order in which any directory lists its entries:
    [same_tree] relates two listings of the same tree (children permuted at every level). *)
@@ -205,6 +320,68 @@ Theorem C12_listing_order_irrelevant :
     same_tree t t' -> wf_treeb t = true -> tar_entries pre repro t = tar_entries pre repro t'.
 Proof. exact listing_order_irrelevant. Qed.
 Print Assumptions C12_listing_order_irrelevant.
+
+(* The statements of content/file that the hand-written model mirrors have the shape it was
+   written against (translator kinds c12_bodyhas / c12_intlit, regenerated on every run): the
+   mask arithmetic, last-entry-wins and directories-only of restoreDirModes, its call at io.EOF
+   only, mode|0700 at creation, the chmod of regular files only, the header normalisation and
+   the root resolution of tarDirectory, the digest comparison after the extraction, the
+   ForceCAS test before restoring a skipped manifest's successors, the unpack test. *)
+Theorem C12_source_facts :
+  c12_fact_narrow && c12_fact_exact && c12_fact_special && c12_fact_lastwins && c12_fact_onlydirs &&
+  c12_fact_at_eof && c12_fact_chmod_files && c12_fact_mkdir && c12_fact_baselink &&
+  c12_fact_ids && c12_fact_times && c12_fact_rootlink && c12_fact_name &&
+  c12_fact_verify_after && c12_fact_skip_restore && c12_fact_unpack_test &&
+  c12_fact_deepest_first && c12_fact_lstat_walk && c12_fact_outside = true.
+Proof. exact source_facts. Qed.
+Print Assumptions C12_source_facts.
+
+Theorem C12_source_literals :
+  N.land c12_dir_owner_bits owner_wx = owner_wx /\ c12_dir_owner_bits <= 511 /\ c12_ensure_dir_perm = 511.
+Proof. exact source_literals. Qed.
+Print Assumptions C12_source_literals.
+
+(* Unpacking into a set-group-ID working directory (a shared project directory): mkdir(2) makes
+   every new directory set-group-ID.  For EVERY archive the extraction is the ordinary run with
+   the bit added to every directory (simulation [Fsg]); for the archives Add writes, the round
+   trip holds with the inherited bit on every directory without PreservePermissions and with the
+   recorded modes exactly with it. *)
+Theorem C12_extract_list_setgid :
+  forall pre umask preserve es,
+    extract_list pre umask preserve (fs_init_sg umask sgid) es
+    = map_res (extract_list pre umask preserve (fs_init umask) es).
+Proof. exact extract_list_setgid. Qed.
+Print Assumptions C12_extract_list_setgid.
+
+Theorem C12_roundtrip_setgid :
+  forall pre umask preserve repro T,
+    (preserve = false -> umask <= 511) ->
+    is_dir T = true -> wf_treeb T = true -> modes_okb T = true -> benign_tree pre T = true ->
+    exists f', extract_sg sgid pre umask preserve (tar_entries pre repro T) = Ok f' /\
+      forall p, fs_lookup f' p = expected_sg sgid umask preserve T p.
+Proof. exact roundtrip_setgid. Qed.
+Print Assumptions C12_roundtrip_setgid.
+
+(* restoreDirModes without PreservePermissions: the special bits of the result are those the
+   directory already had (e.g. the set-group-ID bit inherited from a setgid working directory)
+   and those recorded; the permission bits are never wider than what the directory had.
+   For all numbers, by bit-level reasoning. *)
+Theorem C12_narrow_special :
+  forall cur m, N.land (narrow_mode cur m) 3584 = N.lor (N.land cur 3584) (N.land m 3584).
+Proof. exact narrow_special. Qed.
+Print Assumptions C12_narrow_special.
+
+Theorem C12_narrow_never_widens :
+  forall cur m, N.land (narrow_mode cur m) 511 = N.land (N.land cur 511) (N.land m 511).
+Proof. exact narrow_never_widens. Qed.
+Print Assumptions C12_narrow_never_widens.
+
+(* the user's own umask can take the owner's permissions away (umask 0300): EACCES for the owner,
+   fine for root -- the permission check of the model is not vacuous on the current code *)
+Example C12_owner_bit_umask_refuses :
+  extract_p false [b "d"] 192 false (tar_entries [b "d"] true readonly_dir_witness) = Err XPerm /\
+  exists f, extract_p true [b "d"] 192 false (tar_entries [b "d"] true readonly_dir_witness) = Ok f.
+Proof. exact owner_bit_umask_refuses. Qed.
 
 (* The three annotations Add writes do not clobber each other (keys regenerated from
    content/file/file.go) and make Store.push unpack unless SkipUnpack. *)
